@@ -549,6 +549,16 @@ func judgeRead(c *core.Ctx, blob []byte, rb *bundle.Bundle, err error, pi *core.
 	}
 }
 
+func refbundleText(u string) []byte {
+	b := []byte{}
+	if len(u) < 24 {
+		b = append(b, 0x60|byte(len(u)))
+	} else {
+		b = append(b, 0x78, byte(len(u)))
+	}
+	return append(b, u...)
+}
+
 func abbreviate(s string) string {
 	for i, r := range s {
 		if r == ':' || r == '(' || i > 40 {
@@ -697,7 +707,7 @@ func TestReencode(t *testing.T) {
 				return
 			}
 			secs := p.RawSections(data)
-			op := c.PickStr("reencode.op", "unknown-section", "unknown-section", "reorder", "duplicate", "drop", "identity", "unknown-wrap", "length-cancel", "alias-index", "alias-index")
+			op := c.PickStr("reencode.op", "unknown-section", "unknown-section", "reorder", "duplicate", "drop", "identity", "unknown-wrap", "length-cancel", "alias-index", "alias-index", "foreign-known-section")
 			switch op {
 			case "unknown-section":
 				pos := c.Int("reencode.pos", 0, len(secs)-1) // anywhere before "responses"
@@ -708,6 +718,43 @@ func TestReencode(t *testing.T) {
 				secs = append(ns, secs[pos:]...)
 				c.Fault("reencode-unknown-section")
 				c.Event("unknown section %q (%d bytes) inserted at position %d of %d", name, len(junk), pos, len(secs)-1)
+			case "foreign-known-section":
+				// a section whose name another version defines ("manifest" in b2, "primary" in
+				// b1), holding either a URL or bytes shaped like an index section
+				name := "manifest"
+				if p.Version == "b1" {
+					name = "primary"
+				}
+				present := false
+				for _, sc := range secs {
+					if sc.Name == name {
+						present = true
+					}
+				}
+				if present {
+					op = "identity"
+					break
+				}
+				var data []byte
+				if c.Bool("reencode.foreignIsURL") {
+					data = refbundleText("https://example.com/m" + fmt.Sprint(c.Int("reencode.foreignN", 0, 9)))
+				} else {
+					// an index that points every URL at the first response
+					ents := append([]refbundle.IndexEntry(nil), p.Index...)
+					if len(ents) > 0 {
+						first := ents[0].Locs[0]
+						for i := range ents {
+							ents[i].Locs = []refbundle.Loc{first}
+						}
+					}
+					data = refbundle.EncodeIndex(p.Version, ents)
+				}
+				pos := c.Int("reencode.pos", 0, len(secs)-1)
+				ns := append([]refbundle.RawSection{}, secs[:pos]...)
+				ns = append(ns, refbundle.RawSection{Name: name, Data: data})
+				secs = append(ns, secs[pos:]...)
+				c.Fault("reencode-section-of-another-version")
+				c.Event("section %q (%d bytes) inserted at position %d", name, len(data), pos)
 			case "alias-index":
 				// two index entries designate the same offset; the second with the same or a
 				// different length (legal aliasing when equal, an inconsistent entry otherwise)
